@@ -657,7 +657,9 @@ def r0_parse(ctx):
     sample = [tw for k, tw in enumerate(_gen_values(False)) if k % 3 == 0] + [("a < /b> b", None), ("x <b>y< /b> z", None), ("plain", None), ("", None),
                                                                                  # text with leading / trailing / only white space, line ends and tabs is the user's text too
                                                                                  ("line\n", None), ("\nline", None), ("  two  ", None), ("\n", None), (" ", None), ("a\r\n", None), ("\ttab\t", None),
-                                                                                 ("{{ name }}\n", None), ("<b>x</b> ", None), ("\u00a0nbsp\u00a0", None), ("UPPER lower", None)]
+                                                                                 ("{{ name }}\n", None), ("<b>x</b> ", None), ("\u00a0nbsp\u00a0", None), ("UPPER lower", None),
+                                                                                 # references and nothing else to interpolate
+                                                                                 ("$t(site_name)", None), ("before $t(a.b) after", None), ("$t(ns:key)", None)]
     for cb in cbs:
         bad_cb = None
         m = 0
